@@ -411,3 +411,17 @@ func (k *Ctl) ProbeEncrypted(a2c, c2a []byte, req []byte) ProbeResult {
 	res.Err = "unreadable response"
 	return res
 }
+
+// SendPieces sends each piece as ONE session frame of its own (a piece may be empty: a well-formed frame with no
+// data), all in one socket write. Only on a secured connection.
+func (k *Ctl) SendPieces(pieces ...[]byte) error {
+	var out []byte
+	for _, p := range pieces {
+		var hdr [2]byte
+		binary.LittleEndian.PutUint16(hdr[:], uint16(len(p)))
+		out = append(out, hdr[:]...)
+		out = append(out, Seal(k.c2a, CounterNonce(k.wc), p, hdr[:])...)
+		k.wc++
+	}
+	return k.SendRaw(out)
+}
